@@ -334,8 +334,9 @@ func main() {
 			}
 			drv.Must(json.Unmarshal(c, &k))
 			kind, v, msg := call(k.Fn, k.Args)
-			if len(msg) > 160 {
-				msg = msg[:160]
+			// the message is logged for the reader of a report only (it is not judged)
+			if max := map[string]int{"hostpanic": 100, "err": 40}[kind]; len(msg) > max {
+				msg = msg[:max]
 			}
 			return []any{map[string]any{"id": k.ID, "fn": k.Fn, "args": k.Args, "k": kind, "v": v, "msg": drv.IntsS(msg)}}
 		},
@@ -346,7 +347,7 @@ func main() {
 // ---- seeded random cases: byte strings with valid and invalid UTF-8, all byte values ----
 
 var pieces = [][]byte{
-	[]byte("é"), []byte("€"), []byte("😀"), []byte("�"), []byte("È"), []byte("ß"), []byte("İ"),
+	[]byte("é"), []byte("€"), []byte("😀"), []byte("�"), []byte("È"), []byte("ß"), []byte("İ"), []byte("ı"), []byte("ɐ"), []byte("ſ"),
 	{0xe2, 0x82}, {0xf0, 0x9f}, {0xc3}, {0xa9}, {0xff}, {0xfe}, {0xc0, 0x80}, {0xed, 0xa0, 0x80}, {0x00},
 	[]byte(" "), []byte("\t"), []byte("\n"), []byte("\r"), []byte("\f"), []byte("."), []byte(","), []byte("..."),
 	[]byte("%"), []byte("+"), []byte("~"), []byte("&"), []byte("="), []byte("-"), []byte("_"), []byte("/"),
